@@ -1,4 +1,16 @@
-// unit int_parse_p2 (C07, parsing half): integer/src/parse/power_two.rs
+// unit int_parse_p2 (C07, parsing half): integer/src/parse/power_two.rs -- parse_word, parse_large, parse; UNBOUNDED in the
+// length of the text (the Kani group int_parse_p2 covers 5 symbolic characters).
+// Post (property statement; lib/parse_spec.rs): with s = the bytes of src
+//     Ok(v)  ==> text_ok(s, radix)  (every byte is '_' or a digit of the radix)  &&  v == digits_value(strip_us(s), radix)
+//     Err(e) ==> !text_ok(s, radix) && e == InvalidDigit
+// parse_word under `len <= floor(WORD_BITS / log2 radix)` (its documented precondition; `parse` must establish it: a
+// fast path taken for ceil(..) digits -- radix 8 and 32 -- fails the call's precondition); parse_large for any non-empty
+// text whose bit count fits a Buffer (resource precondition = the documented "number to be parsed is too large" panic).
+// Proved besides: shift amounts < WORD_BITS (`<< bits`, `>> (WORD_BITS - bits)`), `num_bits - 1` does not underflow,
+// every `buffer.push` has room in the ceil(num_bits / WORD_BITS)-word buffer, the second debug assertion of parse_word.
+// Trusted: lib/parse_stubs.rs (digit_from_ascii_byte: Kani int_radix; Word -> UBig), lib/parse_str.rs (string model),
+// lib/repr_stubs.rs (Buffer, Repr::from_buffer), vstd specs of u32::trailing_zeros / checked_mul / Option::expect,
+// u32::is_power_of_two (lib/parse_p2_lemmas.rs, only used by unit int_parse_api).
 #![allow(unused_imports, unused_variables, dead_code, non_snake_case, unused_mut, unused_parens, unused_braces, non_camel_case_types)]
 use vstd::prelude::*;
 verus! {
